@@ -38,7 +38,9 @@ def note_line(serial):
 
 
 def page_text(k, n_notes, serial):
-    lines = ["# page %d v0" % k, ""]
+    # the title carries a tag that changes with every header edit, so that a header edit is visible in the
+    # notes of the page (they inherit it) and hence in the index-vs-files observation
+    lines = ["# page %d #hv0" % k, ""]
     for _ in range(n_notes):
         lines.append(note_line(serial))
     return "\n".join(lines) + "\n\n"
@@ -75,8 +77,8 @@ def apply_real(d, op, serial, day):
             pos = (idx[-1] + span(lines, idx[-1])) if idx else 2
             lines[pos:pos] = note_line(serial).split("\n")
         elif tag == "header":
-            m = re.search(r" v(\d+)$", lines[0])
-            lines[0] = lines[0][:m.start()] + " v%d" % (int(m.group(1)) + 1)
+            m = re.search(r" #hv(\d+)$", lines[0])
+            lines[0] = lines[0][:m.start()] + " #hv%d" % (int(m.group(1)) + 1)
         open(p, "w").write("\n".join(lines))
     elif tag == "newpage":
         write_tree(d, {page_name(op[1]): page_text(op[1], op[2], serial)})
